@@ -85,7 +85,16 @@ fn names_tag(text: &str, tag: &str) -> bool {
 /// character that a Debug rendering escapes.
 fn plugin_route(l: &mut Local, mt: &str, kind: &str, site: &str, tag: &str, content: Option<&str>, b4: &str, case: &Case) {
     let full = format!("{{1:F01BANKBEBBAXXX0000000000}}{{2:I{mt}BANKDEFFXXXXN}}{{4:\n{b4}\n-}}");
-    let Ok(Err(e)) = guard(|| swift_mt_message::SwiftParser::parse_auto(&full).map(|_| ())) else { return };
+    let e = match guard(|| swift_mt_message::SwiftParser::parse_auto(&full).map(|_| ())) {
+        Ok(Err(e)) => e,
+        Ok(Ok(())) => {
+            // the text block was rejected by the typed parser (that is why we are here): wrapped in a valid
+            // envelope the same text must not pass
+            v(l, mt, kind, site, "full-route-accepts-what-the-text-block-route-rejects", format!("MT{mt}: a text block that parse_from_block4 rejects (field {tag}) is accepted by parse_auto inside a valid envelope"), case);
+            return;
+        }
+        Err(_) => return,
+    };
     let lib = format!("{}\n{}\n{}", e, e.debug_report(), format!("{e:?}"));
     let Ok(Err(pe)) = guard(|| crate::plug::parse_mt(&full).map(|_| ())) else {
         l.eval(&format!("MT{mt}/plugin-route"), "plugin-accepted-or-panicked(not judged here)", false, 0);
@@ -187,7 +196,7 @@ pub fn judge(_cfg: &Config, case: &Case, l: &mut Local, stratum: &str) {
                         );
                     } else if !content.is_empty() && !(s_val || rendered.contains(content.as_str())) {
                         v(l, mt, "corrupted", tag, "no-content", format!("MT{mt}: the error for invalid field {tag} does not carry its content"), case);
-                    } else if hash_bytes2(mt, text) % 8 == 0 {
+                    } else if hash_bytes2(mt, text) % 8 == 0 || content.contains("\n\n") {
                         plugin_route(l, mt, "corrupted", tag, tag, Some(content.as_str()), text, case);
                     }
                 }
@@ -291,6 +300,14 @@ pub fn run(cfg: &Config) -> i32 {
         // included, with its own content followed by lines up to 300 and 700 characters in total, one of them 90
         // characters long. Where the message is rejected because of it, the error must carry the whole content
         if vi % 4 == 1 {
+            // an empty line inside the value (no format has one): judged where the text-block route rejects it
+            for k in 0..toks.len() {
+                let mut fs = toks.clone();
+                let nc = format!("{}\n\nTEXT AFTER EMPTY LINE", toks[k].content.lines().next().unwrap_or(""));
+                fs[k].content = nc.clone();
+                let case = Case::Corrupted { mt: mt.to_string(), tag: toks[k].tag.clone(), content: nc, text: tok::render(&fs, false, false), acceptance_not_judged: true };
+                judge(cfg, &case, l, &format!("MT{mt}/corrupt:empty-line-inside"));
+            }
             for k in 0..toks.len() {
                 for total in [300usize, 700] {
                     let mut nc = toks[k].content.clone();
